@@ -82,8 +82,10 @@ outer:
 			continue
 		}
 		var prevStr string
-		for _, str := range values {
-			if str != prevStr {
+		for j, str := range values {
+			// j == 0: the first value is always written, even when it is the empty string
+			// (prevStr starts out as "", which used to swallow an empty-string value).
+			if j == 0 || str != prevStr {
 				d.keyBuilder.WriteString(str)
 				d.keyBuilder.WriteRune('•')
 				fieldCount += 1
